@@ -30,6 +30,7 @@ EXPLANATION = (
     "figures of the tree sliced on the returned set *for every tree* additionally needs "
     "the tree's own updates to follow the same definitions (C04-ARITH) and is not "
     "decided beyond that."
+    "Round 7: (MODELOWN) only class ContractionCosts writes a cost model's running figures (expected count zero; built-in positive example on every run). "
 )
 ASSUMPTIONS = ()
 
